@@ -23,7 +23,7 @@ pub fn c03_dt_timestamp_of_any_holds(d: i32, n: u64, off: i32) {
 }
 pub fn c03_date_timestamp_roundtrip_holds(ts: i64) {
     let day = fdiv128(ts as i128, 86_400) + D1970;
-    assume(day >= i32::MIN as i128 && day <= i32::MAX as i128);
+    assume(day >= i32::MIN as i128); assume(day <= i32::MAX as i128);
     let x = Date::from_timestamp(ts);
     assert!(x.days as i128 == day);
     assert!(x.timestamp() as i128 == 86_400 * fdiv128(ts as i128, 86_400));
@@ -40,7 +40,7 @@ pub fn c03_epoch_holds(z: u8) {
     assert!(spec_rd(1970, 1, 1) == 719_162);
 }
 pub fn c03_dt_order_holds(d1: i32, n1: u64, o1: i32, d2: i32, n2: u64, o2: i32) {
-    assume(n1 < NPD as u64 && n2 < NPD as u64);
+    assume(n1 < NPD as u64); assume(n2 < NPD as u64);
     let a = dt(d1, n1, o1);
     let b = dt(d2, n2, o2);
     let (ia, ib) = (inst(d1, n1), inst(d2, n2));
@@ -60,9 +60,27 @@ pub fn c03_date_order_holds(d1: i32, d2: i32) {
     assert!(a.cmp(&b) == d1.cmp(&d2));
 }
 pub fn c03_time_order_holds(n1: u64, o1: i32, n2: u64, o2: i32) {
-    assume(n1 < NPD as u64 && n2 < NPD as u64);
+    assume(n1 < NPD as u64); assume(n2 < NPD as u64);
     let a = tm(n1, o1);
     let b = tm(n2, o2);
     assert!((a == b) == (n1 == n2) && (a < b) == (n1 < n2) && (a <= b) == (n1 <= n2) && (a > b) == (n1 > n2) && (a >= b) == (n1 >= n2));
     assert!(a.cmp(&b) == n1.cmp(&n2));
+}
+// ---- the two kernels every DateTime operation is built from meet their contracts (used as abstractions elsewhere)
+use crate::errors::AstrolabeError;
+use crate::util::time::convert::{days_nanos_to_nanos, nanos_to_days_nanos};
+pub fn c03_days_nanos_to_nanos_contract_holds(d: i32, n: u64) {
+    assert!(contract_days_nanos_to_nanos(d, n, days_nanos_to_nanos(d, n)));
+}
+pub fn c03_nanos_to_days_nanos_contract_holds(t: i128) {
+    match nanos_to_days_nanos(t) {
+        Ok((d, n)) => assert!(contract_nanos_to_days_nanos(t, true, d, n)),
+        Err(AstrolabeError::OutOfRange(_)) => assert!(contract_nanos_to_days_nanos(t, false, 0, 0)),
+        Err(_) => assert!(false),
+    }
+}
+use crate::util::time::convert::nanos_to_time;
+pub fn c03_nanos_to_time_contract_holds(n: u64) {
+    let (h, m, s) = nanos_to_time(n);
+    assert!(contract_nanos_to_time(n, h, m, s));
 }
